@@ -8,10 +8,19 @@ package pgen
 // rejected by the caller returning false.
 func Reduce(p *Program, stillFails func(*Program) bool, maxTries int) *Program {
 	tries := 0
+	orig := Structural(p)
 	try := func() bool {
 		tries++
 		if tries > maxTries {
 			return false
+		}
+		// a deletion must not create a construct the original did not have (an emptied case body
+		// becomes a label group, a deleted break becomes a fall-through, ...): the reduced program
+		// would then fail for a different reason than the one being reduced
+		for tag := range Structural(p) {
+			if !orig[tag] {
+				return false
+			}
 		}
 		return stillFails(p)
 	}
@@ -214,4 +223,56 @@ func SafeRun(p *Program) (res *Result, err error) {
 		}
 	}()
 	return Run(p)
+}
+
+// Structural recomputes, from the AST, the construct tags that a statement deletion can create.
+func Structural(p *Program) map[string]bool {
+	out := map[string]bool{}
+	var ws func(ss []Stmt)
+	ws = func(ss []Stmt) {
+		for i, s := range ss {
+			switch x := s.(type) {
+			case *If:
+				ws(x.Then)
+				for _, e := range x.Elifs {
+					ws(e.Body)
+				}
+				ws(x.Else)
+			case *Loop:
+				ws(x.Body)
+				if x.Kind == KDoWhile && i+1 < len(ss) {
+					if id, ok := ss[i+1].(*IncDec); ok && id.Prefix {
+						out["dowhile.then-prefix-incdec"] = true
+					}
+				}
+			case *Switch:
+				for k, c := range x.Cases {
+					ws(c.Body)
+					if k == len(x.Cases)-1 {
+						continue
+					}
+					if len(c.Body) == 0 {
+						out["switch.group"] = true
+						continue
+					}
+					switch c.Body[len(c.Body)-1].(type) {
+					case *Break, *Continue, *Return, *Throw:
+					default:
+						out["switch.fallthrough"] = true
+					}
+				}
+			case *Try:
+				ws(x.Body)
+				for _, c := range x.Catches {
+					ws(c.Body)
+				}
+				ws(x.Finally)
+			}
+		}
+	}
+	ws(p.Main)
+	for _, f := range p.Funcs {
+		ws(f.Body)
+	}
+	return out
 }
